@@ -9,6 +9,7 @@ the model and plays no role in any statement.
 -/
 import P2.Model.GroupState
 import P2.Lemmas.GroupState
+import P2.Extracted.C32
 
 namespace P2.C32
 open P2.GroupState
@@ -425,6 +426,50 @@ theorem c32_orig_not_assoc :
         ≠ get? (merge (accessLtOrig natCmp) a (merge (accessLtOrig natCmp) b c)) 0 := by
   refine ⟨[(0, ⟨1, ⟨none, lvlRead⟩, 0⟩)], [(0, ⟨1, ⟨some 3, lvlWrite⟩, 0⟩)],
     [(0, ⟨1, ⟨some 5, lvlRead⟩, 0⟩)], by decide, by decide, by decide, by decide⟩
+
+/-! ## Tie to the current source text (regenerated into `P2/Extracted/C32.lean` on every run) -/
+
+/-- The model of the loop body of `state::merge` *is* the Rust block: `mergeMemberT` is produced by
+    symbolic execution (rs2lean) of the three sequential `if`s found in `state.rs` now. A changed
+    comparison operator, a dropped or added assignment, another tie-break call or argument order changes
+    the generated term and this theorem no longer checks. -/
+theorem c32_merge_is_source (lt : Access C → Access C → Bool) (m1 m : MemberState C) :
+    ((mergeMember lt m1 m).mc, (mergeMember lt m1 m).access, (mergeMember lt m1 m).ac)
+      = P2.Extracted.C32.mergeMemberT lt m1.mc m1.ac m1.access m.mc m.ac m.access := by
+  obtain ⟨amc, aacc, aac⟩ := m1
+  obtain ⟨bmc, bacc, bac⟩ := m
+  unfold mergeMember P2.Extracted.C32.mergeMemberT
+  simp only
+  rcases Nat.lt_trichotomy amc bmc with h | h | h
+  · have h1 : ¬ amc > bmc := by omega
+    have h2 : ¬ amc = bmc := by omega
+    simp [h1, h2]
+  · subst h
+    simp only [gt_iff_lt, Nat.lt_irrefl, if_false, if_true]
+    rcases Nat.lt_trichotomy aac bac with g | g | g
+    · have g1 : ¬ bac < aac := by omega
+      have g2 : ¬ aac = bac := by omega
+      simp [g1, g2]
+    · subst g
+      by_cases hl : lt aacc bacc = true <;> simp [hl]
+    · have g2 : ¬ aac = bac := by omega
+      simp [g]
+  · have h2 : ¬ amc = bmc := by omega
+    simp [h]
+
+/-- The frame around the three `if`s: start from `state_2`, iterate `state_1`, insert absent members. -/
+theorem c32_merge_frame_is_source :
+    (P2.Extracted.C32.mergeStart, P2.Extracted.C32.mergeLoop, P2.Extracted.C32.mergeAbsent)
+      = ("state_2.clone()", "(id, member_state_1) in state_1.members",
+         "next_state.members.insert(id, member_state_1)") := by decide
+
+/-- The repaired tie-break of the model *is* `merge_tie_break_less` as written in `state.rs` now
+    (`tieBreakT`: its nested `match`, translated arm by arm). -/
+theorem c32_tie_break_is_source (cmpC : C → C → Option Ordering) (a b : Access C) :
+    accessLtFix cmpC a b = P2.Extracted.C32.tieBreakT (condLt cmpC) a.level b.level a.cond b.cond := by
+  unfold accessLtFix P2.Extracted.C32.tieBreakT
+  cases compare a.level b.level <;> simp only
+  cases a.cond <;> cases b.cond <;> rfl
 
 /-! ### Non-vacuity -/
 
